@@ -23,15 +23,15 @@ CHECKS = {
          "note": "13-member einsum family, shapes <= 5, operands may store explicit defaults; seeded over (einsum, operands), enumerated over dataflows."},
  "C15": {"level": "exploration", "design_ref": "DESIGN.md §6 C15", "technique": TECH,
          "text": "In one pristine forked child the target session runs first (reference), then with collection off, then after a seeded history of sessions that end normally, by a body exception, abandoned without endCollect, rejected by an undrained consumable trace, or by an injected OSError at a scheduler-chosen file event; outputs on/off are compared, multiply/add/update and per-rank iteration counts with the interpreter's own, dump() and trace files byte-for-byte with the first-session run.",
-         "note": "Nothing is required of the faulted sessions themselves. Metrics.open and Compute.open are the simulator's file seam (worst-case buffering)."},
+         "note": "Nothing is required of the faulted sessions themselves. An extra part enumerates completely every body-abort step and failing file event of one earlier session for fixed small kernels. Metrics.open and Compute.open are the simulator's file seam (worst-case buffering)."},
  "C16": {"level": "exploration", "design_ref": "DESIGN.md §6 C16", "technique": TECH,
          "text": "Each sampled session is executed under every flush threshold in {2,3,5,7,64,1000} and with consumable traces drained by a consumer task at scheduler-chosen loop boundaries; every trace is parsed and judged against a shadow merge of the raw coordinate lists (header, one row per access, stamp order, addressing, position), files must be byte-identical across thresholds and equal to the concatenated in-memory batches.",
-         "note": "The look-ahead element of a two-finger merge may or may not have a row; destination-side traces of an inserting populate are only checked for stamp order and completeness; projection (project_i) traces are not generated."},
+         "note": "Every element a co-iteration fetched, including the look-ahead element read when the other side ran out, must have a row; destination-side traces of an inserting populate are only checked for stamp order and completeness; projection (project_i) traces are not generated; a flattened-rank kernel (tuple coordinates, associateShape) is."},
  "C19": {"level": "exploration", "design_ref": "DESIGN.md §6 C19", "technique": TECH,
          "text": "A consumer task drains the consumable intersect traces of a kernel into a fresh intersector at every subset of the first four fiber boundaries (complete), at all boundaries, only at the end, and at random subsets; the totals of the two-finger, skip-ahead and leader-follower models must equal merge counters computed on the raw coordinate lists for every schedule.",
          "note": "Batch boundaries fall on fiber boundaries only (as the property states). The swap-count model (numSwaps) is a pure function and is not simulated."},
  "C13": {"level": "exploration", "design_ref": "DESIGN.md §6 C13", "technique": TECH,
-         "text": "PARTIAL claim: only the seeded-random clause (the process-global PRNG is an environment the simulator owns and perturbs between constructions) and the YAML-through-files clause (dump onto fresh / older / torn files left by a dump aborted at every file event, read back under worst-case buffering) are decided. The nest->tensor->uncompress and dictionary clauses are pure functions and are not decided by this technique.",
+         "text": "PARTIAL claim: only the seeded-random clause (the process-global PRNG is an environment the simulator owns and perturbs between constructions) and the YAML-through-files clause (dump onto fresh / older / torn files left by a dump aborted at every file event, read back under worst-case buffering) are decided. The nest->tensor->uncompress and dictionary clauses are pure functions: they are executed on sampled nests as a piggy-back (reported as such), not decided by this technique.",
          "note": "Tuple-coordinate tensors are not dumped in exploration; their YAML form is recorded as known finding F13 and replayed on every run."},
  "C17": {"level": "fault_enumeration", "design_ref": "DESIGN.md §6 C17", "technique": TECH + "; abort/failure injected at every file event of each sampled pipeline",
          "text": "Each sampled pipeline (buffet / cache / filterTrace / _combineTraces over synthetic well-formed traces) runs once undisturbed through the file seam and is judged against reference policy models (window rule; Belady-MIN with bypass, itself cross-checked by exhaustive search on tiny instances; stable merge; point filter), then once per file event n with the call aborted (torn write) or failed (ENOSPC) at n and restarted: the restart must give the undisturbed result, leave inputs untouched, close its handles and remove every temporary, also in the presence of stale temporaries.",
